@@ -440,6 +440,9 @@ class Variable:
             self._a[sel] = v._a
             if self._v is not None and v._v is not None:
                 self._v[sel] = v._v
+        elif isinstance(val, np.ndarray | list):
+            arr = _vlift(np.asarray(val, dtype=object))
+            self._a[sel] = arr
         else:
             raise C.Unsupported('setitem with non-variable')
 
